@@ -20,7 +20,7 @@ SCRATCH = os.path.join(VERIF, ".scratch")      # build / case files (ignored by 
 NPROC = os.cpu_count() or 8
 
 IMPL_ENV = dict(os.environ, PYTHONPATH=REPO, PYTHONHASHSEED="0", MPLBACKEND="Agg",
-                RADIOACTIVEDECAY_VERIF="1", PYTHONDONTWRITEBYTECODE="1")
+                RADIOACTIVEDECAY_VERIF="1", PYTHONDONTWRITEBYTECODE="1", VERIF_SYNTH_DIR=os.path.join(SCRATCH, "synth"))
 
 ALLOWED_AXIOMS = {
     # Coq standard library real numbers / classical logic (via Reals, Coquelicot, Interval, Flocq)
@@ -60,6 +60,8 @@ class Lock:
 # ---------------------------------------------------------------- regeneration
 TRANSLATORS = [
     ("tr_data", [PY, os.path.join(TOOLS, "tr_data.py")]),
+    ("synth_dataset", [PY, os.path.join(TOOLS, "synth_dataset.py"), os.path.join(SCRATCH, "synth")]),
+    ("tr_data_synth", [PY, os.path.join(TOOLS, "tr_data.py"), "--dir", os.path.join(SCRATCH, "synth"), "--module", "Synth"]),
     ("tr_tables", [PY, os.path.join(TOOLS, "tr_tables.py")]),
     ("tr_pure", [PY, os.path.join(TOOLS, "tr_pure.py")]),
     ("tr_effects", [PY, os.path.join(TOOLS, "tr_effects.py")]),
